@@ -58,14 +58,20 @@ type (
 	verifOEStr struct{ A string `key:"a,env=VERIF_A"` }
 	verifOEB   struct{ A bool `key:"a,env=VERIF_A"` }
 	verifOEDur struct{ A time.Duration `key:"a,env=VERIF_A"` }
+	// env= together with range= / options=: the variable's value is a document value like any other
+	verifOEIR struct{ A int `key:"a,env=VERIF_A,range=[1:3]"` }
+	verifOEUR struct{ A uint8 `key:"a,env=VERIF_A,range=(0:6]"` }
+	verifOEIO struct{ A int `key:"a,env=VERIF_A,options=1|2"` }
 )
 
 var verifOName = []string{"int string options", "float64 string range", "uint8 string range", "map[int]string", "map[int]int",
 	"int optional=b range", "int optional=!b options", "string optional=b options",
-	"int64 env", "int env", "ptr-int env", "string env", "bool env", "duration env"}
+	"int64 env", "int env", "ptr-int env", "string env", "bool env", "duration env",
+	"int env range", "uint8 env range", "int env options"}
 
 var verifOTag = []string{"int-string-options", "float64-string-range", "uint8-string-range", "map-int-string", "map-int-int",
-	"dep-range", "notdep-options", "dep-string-options", "env-int64", "env-int", "env-ptr-int", "env-string", "env-bool", "env-duration"}
+	"dep-range", "notdep-options", "dep-string-options", "env-int64", "env-int", "env-ptr-int", "env-string", "env-bool", "env-duration",
+	"env-int-range", "env-uint8-range", "env-int-options"}
 
 func verifORun(m map[string]any, v any, name string) (error, bool) {
 	err, p := verifPRun(m, v)
@@ -274,6 +280,14 @@ func Verif_C05_options() {
 		// document itself does not mention the field
 		s := verifStringN("env", verifChoose("env.len", 3))
 		verifOASCII(s)
+		if c == 14 || c == 15 {
+			// the range check reads the text as a float: plain decimal digits here (0..99),
+			// other texts are covered by the cases without range=
+			for i := 0; i < len(s); i++ {
+				verifAssume(s[i] >= '0')
+				verifAssume(s[i] <= '9')
+			}
+		}
 		verifOEnvVal = s
 		doc := map[string]any{}
 		var err error
@@ -313,6 +327,18 @@ func Verif_C05_options() {
 			var t verifOEDur
 			err, ok = verifORun(doc, &t, name)
 			gotD = t.A
+		case 14:
+			var t verifOEIR
+			err, ok = verifORun(doc, &t, name)
+			gotI = int64(t.A)
+		case 15:
+			var t verifOEUR
+			err, ok = verifORun(doc, &t, name)
+			gotI = int64(t.A)
+		case 16:
+			var t verifOEIO
+			err, ok = verifORun(doc, &t, name)
+			gotI = int64(t.A)
 		}
 		if !ok {
 			return
@@ -326,6 +352,17 @@ func Verif_C05_options() {
 			return
 		}
 		switch c {
+		case 14, 15, 16:
+			isNum, v := verifPAtoi(s)
+			verifAssert(verifAnd(isNum, gotI == v), name+": the field equals the number in the variable exactly")
+			switch c {
+			case 14:
+				verifAssert(verifAnd(v >= 1, v <= 3), name+": a value from the environment outside range=[1:3] makes unmarshalling fail")
+			case 15:
+				verifAssert(verifAnd(v > 0, v <= 6), name+": a value from the environment outside range=(0:6] makes unmarshalling fail")
+			default:
+				verifAssert(verifOr(v == 1, v == 2), name+": a value from the environment outside options=1|2 makes unmarshalling fail")
+			}
 		case 8, 9, 10:
 			isNum, v := verifPAtoi(s)
 			verifAssert(verifAnd(isNum, gotI == v), name+": the field equals the number in the variable exactly")
